@@ -269,6 +269,20 @@ func (g *gen) fields(owner string) { g.fieldsAt(owner, "\t", 0) }
 // type down to this struct ("S3", "S3/F7" for the anonymous struct type of field F7 of S3).
 // openNoteText / noteShape: the note is decided when the opening line is written, its shape key is applied to the
 // first member afterwards (record() reads g.prevTrailing)
+// groupDoc: a doc comment on a parenthesised declaration group ("// doc\nconst (\n\tA = 1\n)"). It documents the group,
+// which is no declaration of the statement's kinds; it ends two lines above the first member, so it is no member's
+// doc - not even when the group has exactly one member.
+func (g *gen) groupDoc() bool {
+	if g.r.Intn(3) != 0 {
+		return false
+	}
+	g.emit("// " + g.mark())
+	if g.r.Intn(2) == 0 {
+		g.emit("// +groupTag=" + g.mark())
+	}
+	return true
+}
+
 func (g *gen) openNoteText() string {
 	g.pendingNote = g.openNote()
 	return g.pendingNote
@@ -402,9 +416,13 @@ func (g *gen) file1(pkg, file string, decls int) string {
 				g.prevTrailing = ""
 			}
 		case 2: // grouped types
+			gd := g.groupDoc()
 			g.emit("type (" + g.openNoteText())
 			g.prevTrailing = g.noteShape()
-			k := 2 + g.r.Intn(3)
+			if gd {
+				g.prevTrailing += "group-doc"
+			}
+			k := 1 + g.r.Intn(4)
 			for j := 0; j < k; j++ {
 				d := g.doc("\t", false)
 				if strings.HasPrefix(d.shape, "detached") {
@@ -416,16 +434,20 @@ func (g *gen) file1(pkg, file string, decls int) string {
 				tr, trl, trs := g.trailing()
 				n := g.name("G")
 				g.emit("\t" + n + " " + scalarTypes[g.r.Intn(len(scalarTypes))] + tr)
-				g.record("type", "", []string{n}, d, trl, trs, fmt.Sprintf("grouped%d", min(j, 2)))
+				g.record("type", "", []string{n}, d, trl, trs, fmt.Sprintf("grouped%d-of%d", min(j, 2), min(k, 2)))
 				g.prevTrailing = trs
 			}
 			g.emit(")")
 			g.prevTrailing = ""
 		case 3, 4: // grouped const / var
 			kw := []string{"const", "var"}[g.r.Intn(2)]
+			gd := g.groupDoc()
 			g.emit(kw + " (" + g.openNoteText())
 			g.prevTrailing = g.noteShape()
-			k := 2 + g.r.Intn(4)
+			if gd {
+				g.prevTrailing += "group-doc"
+			}
+			k := 1 + g.r.Intn(5)
 			for j := 0; j < k; j++ {
 				d := g.doc("\t", false)
 				if strings.HasPrefix(d.shape, "detached") {
@@ -442,7 +464,7 @@ func (g *gen) file1(pkg, file string, decls int) string {
 				} else {
 					g.emit("\t" + names[0] + " = " + []string{"1", `"s"`, "true", "1.5"}[g.r.Intn(4)] + tr)
 				}
-				g.record(kw, "", names, d, trl, trs, fmt.Sprintf("grouped%d", min(j, 2)))
+				g.record(kw, "", names, d, trl, trs, fmt.Sprintf("grouped%d-of%d", min(j, 2), min(k, 2)))
 				g.prevTrailing = trs
 			}
 			g.emit(")")
